@@ -187,7 +187,7 @@ class MPSConv1d(nn.Conv1d, MPSModule):
                                      submodule.groups,
                                      submodule.bias is not None,
                                      submodule.padding_mode)
-                new_weights = submodule.weight[mask, :, :, :]
+                new_weights = submodule.weight[mask, :, :]
                 with torch.no_grad():
                     new_conv.weight.copy_(new_weights)
                     if submodule.bias is not None:
